@@ -171,6 +171,7 @@ func checkC15(c *Check) {
 		return out
 	}
 	loopHead := sel.Block()
+	home := sel.Parent() // the function holding the select loop (run, or a new helper it was moved into)
 	// stores to evbuf
 	var shrink, grow []*ssa.Store
 	for _, fn := range fns {
@@ -212,10 +213,10 @@ func checkC15(c *Check) {
 	sb := caseBlock(sendIdx)
 	okShrink := len(shrink) == 1 && sb != nil
 	if okShrink {
-		okShrink = domLift(run, sb, shrink[0])
+		okShrink = domLift(home, sb, shrink[0])
 		// every path from the case to the loop head passes the shrink
 		if okShrink && sb != shrink[0].Block() {
-			okShrink = mustPassFrom(run, sb.Instrs[0], loopHead.Instrs[0], func(i ssa.Instruction) bool { return i == ssa.Instruction(shrink[0]) })
+			okShrink = mustPassFrom(home, sb.Instrs[0], loopHead.Instrs[0], func(i ssa.Instruction) bool { return i == ssa.Instruction(shrink[0]) })
 		}
 	}
 	c.Ob("R2", "the head is dropped exactly when (and always when) its send succeeded", sel.Pos(), okShrink, "after a successful emit the delivered event stays at the head (redelivery), or the head is dropped elsewhere (loss)")
@@ -223,7 +224,7 @@ func checkC15(c *Check) {
 	okGrow := len(grow) == 1 && pb != nil
 	if okGrow {
 		g := grow[0]
-		okGrow = domLift(run, pb, g)
+		okGrow = domLift(home, pb, g)
 		call := g.Val.(*ssa.Call)
 		ev := Sym(call.Call.Args[1])
 		okGrow = okGrow && strings.Contains(ev, "Select#") && strings.HasPrefix(ev, "[")
@@ -240,7 +241,7 @@ func checkC15(c *Check) {
 	{
 		var fwd *ssa.Call
 		for _, call := range callsIn(run, false) {
-			if calleeMethod(call) == "Publish" && pb != nil && domLift(run, pb, call) {
+			if calleeMethod(call) == "Publish" && pb != nil && domLift(home, pb, call) {
 				fwd = call.(*ssa.Call)
 			}
 		}
@@ -335,13 +336,13 @@ func checkC15(c *Check) {
 		sb2 := caseBlock(subIdx)
 		var sends []ssa.Instruction
 		eachInstrDeep(run, func(i ssa.Instruction) {
-			if s, ok := i.(*ssa.Send); ok && sb2 != nil && domLift(run, sb2, s) && strings.Contains(Sym(s.Chan), "Select#") {
+			if s, ok := i.(*ssa.Send); ok && sb2 != nil && domLift(home, sb2, s) && strings.Contains(Sym(s.Chan), "Select#") {
 				sends = append(sends, s)
 			}
 		})
 		ok := len(sends) == 1 && sb2 != nil
 		if ok && sb2 != sends[0].Block() {
-			ok = mustPassFrom(run, sb2.Instrs[0], loopHead.Instrs[0], func(i ssa.Instruction) bool { return i == sends[0] })
+			ok = mustPassFrom(home, sb2.Instrs[0], loopHead.Instrs[0], func(i ssa.Instruction) bool { return i == sends[0] })
 		}
 		reg := false
 		eachInstrDeep(run, func(i ssa.Instruction) {
@@ -379,7 +380,42 @@ func checkC15(c *Check) {
 					waited = true
 				}
 			}
-			ok = waited && blockReaches(async.Block(), wait.Block())
+			drained := func(f []Atom) bool {
+				for _, a := range f {
+					if a.Op == "<=" && nrm(Sym(a.X)) == "builtin.len(p:b.subscriptions)" && Sym(a.Y) == "0" {
+						return true
+					}
+				}
+				return false
+			}
+			if !waited {
+				// the wait loop may live in a new helper called before the notification: every return of that helper
+				// is then past the loop's exit condition
+				if ln := liftTo(run, notify); ln != nil {
+					waited = mustPassFrom(run, nil, ln, func(in ssa.Instruction) bool {
+						ci, isC := in.(ssa.CallInstruction)
+						if !isC {
+							return false
+						}
+						h := newHelperCallee(ci)
+						if h == nil {
+							return false
+						}
+						n := 0
+						for _, b := range h.Blocks {
+							if _, isR := b.Instrs[len(b.Instrs)-1].(*ssa.Return); isR {
+								n++
+								if !drained(factsAt(b)) {
+									return false
+								}
+							}
+						}
+						return n > 0
+					})
+				}
+			}
+			reaches := async.Parent() == wait.Parent() && blockReaches(async.Block(), wait.Block())
+			ok = waited && reaches
 		}
 		c.Ob("R3", "on shutdown all children are stopped and awaited before the parent is notified", run.Pos(), ok, "")
 	}
